@@ -24,12 +24,14 @@ theorem patterns_are_the_source_formats :
     fmtOf patSection = PV.Generated.Ini.fmtSection ∧ kvPatterns.map fmtOf = PV.Generated.Ini.fmtKv := by
   decide
 
-/-- buffer sizes, the read loop and the comment guard are the ones the theorems assume -/
+/-- buffer sizes, the read loop and the comment guard are the ones the theorems assume; the functions that are
+modelled by hand (getters, look-ups, life cycle, string helpers) have the text the model was written from -/
 theorem source_facts :
     PV.IniSpec.maxLine = PV.Generated.Ini.maxLine ∧
     PV.Generated.Ini.lineBufSize = PV.Generated.Ini.maxLine + 1 ∧
     PV.Generated.Ini.fgetsWholeBuffer = true ∧
-    PV.Generated.Ini.commentSkip = true := by
+    PV.Generated.Ini.commentSkip = true ∧
+    PV.Generated.Ini.handModelledTextKnown = true := by
   decide
 
 /-! ## (a) robustness, for all byte strings -/
@@ -255,6 +257,92 @@ theorem utf32le_bom_dead :
     parseWith true ([0x00, 0x00, 0xFE, 0xFF] ++ [91, 115, 93, 10, 107, 61, 118, 10]) = [⟨[115], [([107], [118])]⟩] := by
   decide
 
+/-! ## (e) the object: life cycle and NULL arguments -/
+
+/-- `p_ini_file_new (NULL)` is NULL; a new object is not parsed. -/
+theorem new_object (path : Bytes) :
+    fileNew none = none ∧ fileIsParsed (fileNew (some path)) = false ∧ fileIsParsed none = false := ⟨rfl, rfl, rfl⟩
+
+/-- An object that does not exist or is not parsed, and a NULL section or key name, yield nothing and the
+defaults — whatever the default is (`FALSE`, 0, `INT_MIN`, NaN, NULL, …): no sections, no keys, no key exists,
+every typed getter returns its default argument untouched. -/
+theorem unparsed_or_null_yields_defaults (h : Option Handle) (sec key : Option Bytes)
+    (hc : fileIsParsed h = false ∨ sec = none ∨ key = none) :
+    (fileIsParsed h = false → apiSections h = [] ∧ apiKeys h sec = []) ∧
+    apiIsKeyExists h sec key = false ∧
+    (∀ d, apiString h sec key d = d.map cstr) ∧ (∀ d, apiInt h sec key d = .val d) ∧
+    (∀ d, apiBoolean h sec key d = .val d) ∧ apiList h sec key = [] ∧ (∀ d, apiDouble h sec key d = d) := by
+  have hf : apiFind h sec key = none := by
+    rcases hc with hp | hn
+    · exact apiFind_unparsed h hp sec key
+    · exact apiFind_null h sec key hn
+  have he : apiIsKeyExists h sec key = false := by
+    unfold apiIsKeyExists
+    unfold apiFind at hf
+    cases sec <;> cases key <;> simp_all [isKeyExists_iff]
+  refine ⟨?_, he, ?_, ?_, ?_, ?_, ?_⟩
+  · intro hp
+    have hv := visible_unparsed h hp
+    constructor
+    · unfold apiSections; rw [hv]; rfl
+    · unfold apiKeys; rw [hv]; cases sec <;> rfl
+  all_goals simp [apiString, apiInt, apiBoolean, apiList, apiDouble, hf]
+
+/-- `p_ini_file_parse` on NULL fails with `P_ERROR_IO_INVALID_ARGUMENT`; a file that cannot be opened leaves
+the object unparsed (so that a later call tries again), reports the platform's error, and the object keeps
+answering with the defaults. -/
+theorem failed_parse_leaves_unparsed (fs : Bytes → Except Bool Bytes) (h : Handle) (ne : Bool)
+    (hp : h.parsed = false) (hfs : fs h.path = .error ne) :
+    fileParse fs none = (none, false, some .invalidArgument) ∧
+    fileParse fs (some h) = (some h, false, some (.openFailed ne)) ∧
+    fileIsParsed (fileParse fs (some h)).1 = false := by
+  refine ⟨rfl, ?_, ?_⟩ <;> simp [fileParse, hp, hfs, fileIsParsed]
+
+/-- A successful parse shows exactly `parse content` (so `consistent`, `parse_render_partial`, `lookup_render`
+and the getter theorems speak about what the API returns), and parsing again — whatever the file system
+holds by then — changes nothing and succeeds without reading. -/
+theorem parse_once (fs fs' : Bytes → Except Bool Bytes) (path content : Bytes) (hfs : fs (cstr path) = .ok content) :
+    let r := fileParse fs (fileNew (some path))
+    r.2 = (true, none) ∧ fileIsParsed r.1 = true ∧ visible r.1 = parse content ∧
+    fileParse fs' r.1 = (r.1, true, none) := by
+  simp [fileParse, fileNew, hfs, fileIsParsed, visible]
+
+/-! ## (f) the `pstring.c` entry points the parser and the getters rely on -/
+
+/-- `p_strchomp` "removes trailing and leading whitespaces": for every string the result is the string
+without its leading and trailing white space (C locale) — despite the asymmetric loop bounds of the code.
+NULL gives NULL; bytes after a NUL are not seen. -/
+theorem strchomp_is_trim (s : Bytes) :
+    chomp s = PV.IniSpec.trim s ∧ strchomp (some s) = some (PV.IniSpec.trim (cstr s)) ∧ strchomp none = none :=
+  ⟨chomp_eq_trim s, by simp [strchomp, chomp_eq_trim], rfl⟩
+
+/-- `p_strdup` copies the bytes up to the first NUL; NULL gives NULL. -/
+theorem strdup_copies (s : Bytes) :
+    strdup (some s) = some (cstr s) ∧ strdup none = none ∧ (∀ b ∈ cstr s, b ≠ 0) ∧ (cstr s) <+: s := by
+  refine ⟨rfl, rfl, ?_, List.takeWhile_prefix _⟩
+  intro b hb
+  have := mem_takeWhile_true _ _ b hb
+  simpa using this
+
+/-- The documented `p_strtok` loop with one delimiter set returns exactly the maximal non-empty runs of
+non-delimiter bytes, in order, and `length + 1` calls always suffice (it terminates); each single call returns
+a non-empty delimiter-free token that starts where the leading delimiters end, and leaves strictly less text. -/
+theorem strtok_loop (delim s : Bytes) :
+    strtokLoop delim (s.length + 1) s = PV.IniSpec.tokens delim s ∧
+    ∀ tok rest, strtokR delim s = some (tok, rest) →
+      tok ≠ [] ∧ (∀ b ∈ tok, delim.contains b = false) ∧ tok <+: s.dropWhile delim.contains ∧ rest.length < s.length :=
+  ⟨strtokLoop_eq_tokens delim _ s (by omega), fun tok rest h => strtokR_token delim s tok rest h⟩
+
+/-- `p_strtod (NULL)` is 0.0 and leading / trailing white space does not matter (the argument is chomped first). -/
+theorem strtod_trims (s : Bytes) :
+    strtodApi none = 0.0 ∧ strtod s = strtod (PV.IniSpec.trim s) := by
+  refine ⟨rfl, ?_⟩
+  have h1 : chomp s = PV.IniSpec.trim s := chomp_eq_trim s
+  have h2 : chomp (PV.IniSpec.trim s) = PV.IniSpec.trim s := by
+    rw [chomp_eq_trim]; exact trim_idem s
+  unfold strtod
+  rw [h1, h2]
+
 /-! ## non-vacuity -/
 
 /-- ␣[ s ]␍␊ ; c = d␊ k = "v;1" # t␊ k='w'␊ [e]␊ [t]␊ n = 42 (no final newline), with a UTF-8 BOM -/
@@ -277,5 +365,10 @@ example : (parse f3Input = []) := by decide
 example : atoi [32, 45, 49, 50, 120] = .val (-12) := by decide
 example : atoi [50, 49, 52, 55, 52, 56, 51, 54, 52, 56] = .overflow := by decide
 example : toList [123, 49, 9, 50, 32, 32, 53, 125] = [[49], [50], [53]] := by decide
+example : chomp [32, 9, 97, 32, 98, 11, 10] = [97, 32, 98] := by decide
+example : strtokLoop [44, 32] 8 [44, 97, 44, 32, 98, 99, 44] = [[97], [98, 99]] := by decide
+example : (fileParse (fun _ => .ok f3Input) (fileParse (fun _ => .ok [91, 115, 93, 10, 107, 61, 118]) (fileNew (some [102]))).1).1.map (·.file)
+    = some [⟨[115], [([107], [118])]⟩] := by decide
+example : apiBoolean (fileNew (some [102])) (some [115]) (some [107]) false = .val false := by decide
 
 end PV.Ini
